@@ -3,7 +3,7 @@ package main
 // Shared helpers of the dedup family: list series, the `dd.run` op (C01, C02) and its parsing.
 //
 // dd.run <f> <replicas> <calls>
-//    f        = PromQL function name of the select hints, `none` for the empty string
+//    f        = function name of the select hints (SelectHints.Func), any name; `none` = the empty string
 //    replicas = r;r;…      r = e (no samples) | t:v,t:v,…     (integers)
 //    calls    = c,c,…      c = n (Next) | s<t> (Seek t) | d (Next until ValNone)
 //    answer   = o,o,…      o = t:v (At() after a successful call) | x (ValNone) | panic (trace ends)
@@ -11,6 +11,7 @@ package main
 import (
 	"fmt"
 	"math"
+	"sort"
 	"strconv"
 	"strings"
 	"sync/atomic"
@@ -18,6 +19,7 @@ import (
 
 	"github.com/prometheus/prometheus/model/histogram"
 	"github.com/prometheus/prometheus/model/labels"
+	"github.com/prometheus/prometheus/promql/parser"
 	"github.com/prometheus/prometheus/storage"
 	"github.com/prometheus/prometheus/tsdb/chunkenc"
 	"github.com/prometheus/prometheus/tsdb/chunks"
@@ -274,8 +276,80 @@ func totalLen(reps [][]smp) int {
 	return n
 }
 
+// isCounterFn is the SPECIFICATION of the classification (C01/C02), written down independently of
+// the code: exactly the four PromQL functions that are defined on counters and need the values of
+// a series stitched across replicas.  Everything else — gauge functions, *_over_time,
+// aggregations, the Thanos x-functions, unknown names, no name — is a non-counter name.
 func isCounterFn(f string) bool {
 	return f == "increase" || f == "rate" || f == "irate" || f == "resets"
+}
+
+// hintFuncNames is every name the engines can put into SelectHints.Func: all functions of the
+// vendored PromQL parser (parser.Functions), all aggregation operators, the extended range
+// functions of the Thanos engine, plus names no engine knows (near misses of the counter names,
+// other spellings, arbitrary words).  "none" stands for the empty name.  Sorted, deterministic.
+var hintFuncNames = func() (all []string) {
+	seen := map[string]bool{}
+	add := func(xs ...string) {
+		for _, x := range xs {
+			if !seen[x] {
+				seen[x] = true
+				all = append(all, x)
+			}
+		}
+	}
+	var fs []string
+	for name := range parser.Functions {
+		fs = append(fs, name)
+	}
+	sort.Strings(fs)
+	add("none")
+	add(fs...)
+	add("sum", "avg", "count", "min", "max", "group", "stddev", "stdvar", "topk", "bottomk", "count_values", "quantile", "limitk", "limit_ratio")
+	add("xrate", "xincrease", "xdelta") // Thanos engine, --query.enable-x-functions
+	add("holt_winters", "double_exponential_smoothing")
+	add("rates", "rat", "Rate", "RATE", "irates", "increases", "increase_", "reset", "xresets", "xirate", "xidelta", "x", "counter", "foo", "bar_over_time", "rate2", "irate.", "resets_over_time", "delta_rate")
+	return all
+}()
+
+// nonCounterNames / counterNames split hintFuncNames by the specification.
+func nonCounterNames() (out []string) {
+	for _, f := range hintFuncNames {
+		if !isCounterFn(f) {
+			out = append(out, f)
+		}
+	}
+	return out
+}
+
+func counterNames() (out []string) {
+	for _, f := range hintFuncNames {
+		if isCounterFn(f) {
+			out = append(out, f)
+		}
+	}
+	return out
+}
+
+// funcClass names the kind of a function name for the measured distribution.
+func funcClass(f string) string {
+	switch {
+	case isCounterFn(f):
+		return "counter"
+	case f == "none":
+		return "empty"
+	case f == "xrate" || f == "xincrease" || f == "xdelta":
+		return "thanos-x-function"
+	case f == "sum" || f == "avg" || f == "count" || f == "min" || f == "max" || f == "group" || f == "stddev" || f == "stdvar" || f == "topk" || f == "bottomk" || f == "count_values" || f == "quantile" || f == "limitk" || f == "limit_ratio":
+		return "aggregation"
+	}
+	if _, ok := parser.Functions[f]; ok {
+		if strings.HasSuffix(f, "_over_time") {
+			return "promql-over-time"
+		}
+		return "promql-function"
+	}
+	return "unknown-name"
 }
 
 func fnArg(f string) string {
